@@ -65,6 +65,8 @@ def _runs(draw):
         else:
             ops.append([kind])
     tol = draw(st.sampled_from([1e-3, 1e-6, 1e-8])) if dtype != "float32" else draw(st.sampled_from([1e-3, 1e-4]))
+    if fam in ("explicit_fixed", "splitting", "implicit_fixed") and draw(st.integers(0, 3)) == 0:
+        tol = None         # the library's default tolerances (nothing passed to the constructor)
     return dict(part="runs", method=method, dtype=dtype, prob=prob, y0=draw(PR.state([n])), t0=t0, tf=tf, dt=dt,
                 rtol=tol, atol=tol, dense=draw(st.booleans()), ops=ops, eta=draw(st.sampled_from([False] * 5 + [True])))
 
@@ -207,7 +209,7 @@ def check(case):
     method = case["method"]
     fam = M.family(M.get(method))
     attrs = dict(method=method, family=fam, dtype=case["dtype"])
-    labels = ["family:" + fam, "dtype:" + case["dtype"]] + traj.span_class(case["t0"], case["tf"]) + (["progress_bar_requested"] if case.get("eta") else [])
+    labels = ["family:" + fam, "dtype:" + case["dtype"]] + traj.span_class(case["t0"], case["tf"]) + (["progress_bar_requested"] if case.get("eta") else []) + (["default_tolerances"] if case.get("rtol") is None else [])
     viols = []
     try:
         a, f, y0 = traj.make_system(case)
